@@ -6,7 +6,7 @@
     delete_prefix,iter,delete_iter}], entries and lazily advancing iterators; [s_step] is
     its specification (iterators are snapshots; locked = under the prefix of a live
     iterator).  "Reachable" = the state after an arbitrary history from the initial state. *)
-From Coq Require Import NArith List Bool.
+From Coq Require Import NArith List Bool Sorted.
 From CB Require Import Trie.Radix.
 From CB Require Import Trie.RadixProofs.
 From CB Require Import Trie.PrefixMap.
@@ -105,6 +105,22 @@ Proof.
 Qed.
 Print Assumptions locks_are_live_iterators.
 
+(** ** An iterator yields exactly the snapshot taken at its creation.  On the
+    specification machine: after [iter k] returned iterator [i] in a generation whose map
+    is sorted (true in every reachable state), for EVERY list of further operations of that
+    generation that does not delete iterator [i] - inserts, deletes, prefix deletes (refused
+    or not), other iterators, handle use - the results of the [ONext i] operations are,
+    in order, the keys under [k] at creation time in ascending order, then "exhausted"
+    for ever.  By [history_refines] (Props/C03.v) the model machine, whose iterators walk
+    the current tree lazily like the implementation's, returns the same for every history. *)
+Theorem iterator_yields_snapshot : forall g k g1 i ops,
+  StronglySorted (fun a b => lex_ltb (fst a) (fst b) = true) (s_map g) ->
+  s_iter k g = (g1, RIter i) -> Forall (not_deliter i) ops ->
+  sg_yields i ops g1 =
+  snapshot_prefix (length (sg_yields i ops g1)) (map fst (a_iterate k (s_map g))).
+Proof. exact iterator_snapshot. Qed.
+Print Assumptions iterator_yields_snapshot.
+
 (** ** A handle to a deleted entry is invalid for every later read, set and get_mut *)
 Theorem handle_to_deleted_entry_invalid : forall k g e h v,
   lookup_root (nib k) (g_root g) = Some e -> snd (m_delete k g) <> RLocked ->
@@ -145,3 +161,12 @@ Example overflow_boundary :
   /\ pm_wf (pm_set [1] MAXC (Some (pn_fresh [1]))) = true.
 Proof. vm_compute. repeat split. Qed.
 Print Assumptions overflow_boundary.
+
+Example iterator_yields_snapshot_nonvacuous :
+  let g := fst (s_insert [1; 2] [2] (fst (s_insert [3] [3] (fst (s_insert [1; 1] [1] empty_sgen))))) in
+  let g1 := fst (s_iter [1] g) in
+  s_iter [1] g = (g1, RIter 0)
+  /\ sg_yields 0 [ONext 0; OInsert [2] []; OInsert [1; 0] []; ODelete [3]; ONext 0; ODeletePrefix []; ONext 0; ONext 0] g1
+     = [Some [1; 1]; Some [1; 2]; None; None].
+Proof. vm_compute. split; reflexivity. Qed.
+Print Assumptions iterator_yields_snapshot_nonvacuous.
